@@ -176,6 +176,9 @@ func (e *Env) inlinedSet(root *ssa.Function, exclude map[*ssa.Function]bool) map
 				if g == nil || !e.P.Funcs[g] || set[g] || exclude[g] {
 					continue
 				}
+				if isAccessor(g) {
+					continue // plain accessors stay opaque: their effect is reported at the call site
+				}
 				if ir.UniqueSite(g) == ci {
 					set[g] = true
 					work = append(work, g)
